@@ -245,6 +245,24 @@ def newVestingAccount (s : State) (to : String) (amount free lockEnd vestingEnd 
   | .err => .err
   | .panic => .panic
 
+/-- the LAST pool named `name` (the Go loop overwrites its pointer on every match) -/
+def lastNamed (name : String) : List Pool → Option Pool
+  | [] => none
+  | p :: ps =>
+    match lastNamed name ps with
+    | some q => some q
+    | none => if p.name = name then some p else none
+
+/-- adds `amount` to `Sent` of the LAST pool named `name` (the Go loop keeps the last match);
+    the flag says whether some pool was updated -/
+def bumpLast (name : String) (amount : Int) : List Pool → List Pool × Bool
+  | [] => ([], false)
+  | p :: ps =>
+    let r := bumpLast name amount ps
+    if r.2 then (p :: r.1, true)
+    else if p.name = name then ({ p with sent := p.sent + amount } :: r.1, true)
+    else (p :: r.1, false)
+
 /-- `Keeper.SendToNewVestingAccount` -/
 def sendToNew (s : State) (owner to : Addr) (pool : String) (amount : Int) (restart : Bool) : Outcome Res :=
   if !(validateBasic (.send owner to pool (some amount) restart)) then .err else
@@ -257,7 +275,7 @@ def sendToNew (s : State) (owner to : Addr) (pool : String) (amount : Int) (rest
     | none => .err
     | some ps =>
       if ps.length = 0 then .err else
-      match (ps.filter (·.name = pool)).getLast? with
+      match lastNamed pool ps with
       | none => .err
       | some p =>
         if p.locked < amount then .err else
@@ -271,8 +289,7 @@ def sendToNew (s : State) (owner to : Addr) (pool : String) (amount : Int) (rest
           | .panic => .panic
           | .ok s2 =>
             -- the loop keeps the LAST pool with that name; `Sent` is added to that one
-            let idx := (ps.zipIdx.filter (fun q => q.1.name = pool)).getLast?.map (·.2)
-            let ps' := ps.zipIdx.map (fun q => if some q.2 = idx then { q.1 with sent := q.1.sent + amount } else q.1)
+            let ps' := (bumpLast pool amount ps).1
             let s3 := (s2.setPools owner.s ps').appendTrace to.s p.genesisPool false
             .ok { st := s3, evs := w.evs ++ [Ev.newFromPool owner.s to.s pool amount restart], paid := w.paid }
 
